@@ -6,6 +6,7 @@
 //!   verif-harness candidates <req-file>             smaller variants of the (single) request
 mod cen;
 mod clu;
+mod comm;
 mod comp;
 mod graphgen;
 mod rng;
@@ -30,6 +31,8 @@ fn gen(family: &str, profile: &str, seed: u64, count: usize, size: usize) -> Vec
                 store::gen_case(&mut r, p, size).request()
             }
             "sp" => sp::gen_case(&mut r, profile, size).request(),
+            "mod" => comm::gen_mod(&mut r, profile, size).request(),
+            "louv" => comm::gen_louv(&mut r, profile, size).request(),
             "clu" => clu::gen_case(&mut r, profile, size).request(),
             "comp" => comp::gen_case(&mut r, profile, size).request(),
             "cen" => cen::gen_cen(&mut r, profile, size).request(),
@@ -52,11 +55,22 @@ pub fn guarded(f: impl FnOnce() -> String + std::panic::UnwindSafe) -> String {
     }
 }
 
+static TIMEOUTS: std::sync::atomic::AtomicUsize = std::sync::atomic::AtomicUsize::new(0);
+
 fn run_line(line: &str) -> String {
     let (cmd, mut t) = store::Toks::from_line(line);
     match cmd.as_str() {
         "store" => store::observe(&store::Case::parse(&mut t)),
         "sp" => { let c = sp::Case::parse(&mut t); guarded(move || sp::observe_inner(&c)) }
+        "mod" => { let c = comm::ModCase::parse(&mut t); guarded(move || comm::observe_mod(&c)) }
+        "louv" => {
+            let c = comm::LouvCase::parse(&mut t);
+            let n = TIMEOUTS.load(std::sync::atomic::Ordering::SeqCst);
+            if n >= 3 { return "i.timeout=skipped after 3 earlier timeouts in this run".to_string(); }
+            let r = comm::observe_louv(&c, 8000);
+            if r.starts_with("i.timeout") { TIMEOUTS.fetch_add(1, std::sync::atomic::Ordering::SeqCst); }
+            r
+        }
         "clu" => { let c = clu::Case::parse(&mut t); guarded(move || clu::observe(&c)) }
         "comp" => { let c = comp::Case::parse(&mut t); guarded(move || comp::observe(&c)) }
         "cen" => { let c = cen::CenCase::parse(&mut t); guarded(move || cen::observe_cen(&c)) }
@@ -70,6 +84,8 @@ fn candidates(line: &str) -> Vec<String> {
     match cmd.as_str() {
         "store" => store::candidates(&store::Case::parse(&mut t)),
         "sp" => sp::candidates(&sp::Case::parse(&mut t)),
+        "mod" => comm::candidates_mod(&comm::ModCase::parse(&mut t)),
+        "louv" => comm::candidates_louv(&comm::LouvCase::parse(&mut t)),
         "clu" => clu::candidates(&clu::Case::parse(&mut t)),
         "comp" => comp::candidates(&comp::Case::parse(&mut t)),
         "cen" => cen::candidates_cen(&cen::CenCase::parse(&mut t)),
